@@ -35,7 +35,7 @@ FIELD_WORDS = ["alpha", "bravo", "count", "delta", "echo", "flag", "gold", "hp",
 # identifiers colliding with generated code, degenerate like the locals `reader`, `writer`, `data`, `result`, `i`
 ENUM_VALUE_WORDS = ["None", "Ok", "Fail", "Male", "Female", "Up", "Down", "Left", "Right", "Normal", "Hidden",
                     "Admin", "Guest", "Open", "Closed", "Red", "Green", "Blue", "Big", "Small", "A", "B2", "NPC",
-                    "OnlyOne", "Busy", "Full", "Empty", "Used", "Unknown", "Other", "Invalid", "Default"]
+                    "OnlyOne", "Busy", "Full", "Empty", "Used", "Unknown", "Other", "Invalid"]
 # class names that collide with names the generated modules import or with public classes of the library
 FORBIDDEN_TYPE_NAMES = {
     "Optional", "Union", "Iterable", "EoWriter", "EoReader", "SerializationError", "IntEnum", "Packet",
